@@ -76,7 +76,7 @@ type HarnessSummary struct {
 	Paths       int
 	ByStatus    map[string]int
 	Violations  map[string]*Violation   // first per label
-	Alternates  map[string][]*Violation // up to 3 more per label
+	Alternates  map[string][]*Violation // up to 10 more per label
 	ViolCount   map[string]int
 	Asserts     map[string]int
 	BySolver    map[string]int
@@ -251,7 +251,8 @@ func (s *HarnessSummary) absorb(r *RunResult) {
 		s.ViolCount[v.Label]++
 		if _, ok := s.Violations[v.Label]; !ok {
 			s.Violations[v.Label] = &v
-		} else if len(s.Alternates[v.Label]) < 3 {
+		} else if n := s.ViolCount[v.Label]; len(s.Alternates[v.Label]) < 3 || (len(s.Alternates[v.Label]) < 10 && n&(n-1) == 0) {
+			// the 2nd..4th and then the 8th, 16th, 32nd ... counterexample: spares spread over the exploration
 			// further counterexamples for the same obligation, from other paths: replayed only if the first one does
 			// not reproduce natively (e.g. because it leans on an evaluation order the compiler does not use)
 			if s.Alternates == nil {
